@@ -295,7 +295,7 @@ TypeOK == /\ hashMod \in Nat \ {0} /\ nseg \in Nat /\ stale \in BOOLEAN
 CONSTANTS EdgeIds, WriteIds, EdgeVers, EdgeStamps, CaseSlots
 
 EdgeHandles(L, P) == [lid : L, a : P, b : P, act : BOOLEAN, ver : EdgeVers, ts : EdgeStamps, del : BOOLEAN]
-BaseHandle == [lid |-> "slot", a |-> "pat", b |-> "nil", act |-> FALSE, ver |-> "one", ts |-> "zero", del |-> FALSE]
+BaseHandle == [lid |-> "slot", a |-> "pat", b |-> "max", act |-> TRUE, ver |-> "neg1", ts |-> "neg1", del |-> TRUE]   \* no zero byte
 BaseId(j)  == <<1, j>>
 SlotHandle(i) == (CHOOSE c \in AtPos(cells, 1, 0, i) : TRUE).v
 
